@@ -371,7 +371,14 @@ func (p *Parser) parseOperation(tokens []tokenizer.Token, validateOnly bool) (se
 	}
 	if negated && err == nil {
 		if !validateOnly {
-			sel = &NotNode{sel}
+			if inner, ok := sel.(*NotNode); ok {
+				// Negating a (parenthesised) negation: collapse the pair, exactly as we do for
+				// adjacent "!" operators above.  Otherwise the canonical form would be "!!x",
+				// which parses back to "x" and so would not be a fixed point.
+				sel = inner.Operand
+			} else {
+				sel = &NotNode{sel}
+			}
 		}
 	}
 	return
